@@ -182,3 +182,51 @@ Proof. exact host_url_total. Qed.
 (* the split used there loses nothing: joining the pieces with the separator gives the header value back *)
 Theorem split_join : forall c s, join_with c (split_on c s) = s.
 Proof. exact split_on_join. Qed.
+
+(* urllib.parse.quote (used for SCRIPT_NAME and PATH_INFO in Request.script_url / base_url): it cannot raise on text
+   without lone surrogates (PEP 3333: environ strings are latin-1 decoded bytes, so this always holds for a request) ... *)
+Theorem quote_never_raises : forall s, (forall c, In c s -> scalar c) -> quote s <> None.
+Proof. exact quote_total. Qed.
+
+(* ... and everything it emits is a letter, digit, one of _ . - ~ / or the percent sign: no markup, no quote, no ampersand. *)
+Theorem quote_emits_url_characters :
+  forall s q, quote s = Some q -> forall c, In c q ->
+    (quote_safe c = true \/ c = 37) /\ c <> c_lt /\ c <> c_gt /\ c <> c_quot /\ c <> c_apos /\ c <> c_amp.
+Proof. exact quote_chars_no_markup. Qed.
+
+(* Request.script_url (welcome page, demo pages) and Request.base_url (capabilities documents) for EVERY combination of
+   Host, X-Forwarded-Host, X-Forwarded-Proto, SERVER_NAME, SERVER_PORT and every surrogate-free SCRIPT_NAME / PATH_INFO
+   (present or absent): the code cannot raise (None models IndexError / UnicodeEncodeError). *)
+Theorem script_url_never_raises :
+  forall e sn, (forall s c, sn = Some s -> In c s -> scalar c) -> script_url e sn <> None.
+Proof. exact script_url_total. Qed.
+
+Theorem base_url_never_raises :
+  forall e sn p, (forall s c, sn = Some s -> In c s -> scalar c) -> (forall s c, p = Some s -> In c s -> scalar c) ->
+    base_url e sn p <> None.
+Proof. exact base_url_total. Qed.
+
+(* Request.base_url never contains < > or a quote character, whatever the request headers, script name and path are ... *)
+Theorem base_url_no_markup :
+  forall e sn p u, base_url e sn p = Some u ->
+    forall c, In c u -> c <> c_lt /\ c <> c_gt /\ c <> c_quot /\ c <> c_apos.
+Proof. exact base_url_markup_free. Qed.
+
+(* ... hence a document that inserts it at any number of places (capabilities) has the same token structure for any two
+   requests: not only the host but also the script name and the path cannot create, end or merge tokens. *)
+Theorem capabilities_structure_independent_of_request :
+  forall segs e1 sn1 p1 u1 e2 sn2 p2 u2,
+    base_url e1 sn1 p1 = Some u1 -> base_url e2 sn2 p2 = Some u2 ->
+    shape (tokenize (fill segs u1)) = shape (tokenize (fill segs u2)).
+Proof. exact fill_base_url_shape. Qed.
+
+(* The welcome page as MapProxyApp.__call__ builds it for the paths `` and `/` (call site generated from the source:
+   welcome_response(escape_html(req.script_url))): the tokens are the same for every request; the script URL stays inside
+   the href attribute of the one <a> tag. *)
+Theorem welcome_page_of_request_fixed_structure :
+  forall version, (forall c, In c version -> c <> c_lt) ->
+  exists tp pre t ts,
+    (forall s, t <> Text s) /\
+    forall e sn u, script_url e sn = Some u ->
+      tokenize (welcome_page version true u) = tp ++ tok_add (pre ++ escape_html u) t :: ts.
+Proof. exact welcome_root_structure. Qed.
